@@ -8,11 +8,16 @@
 (* Names are strings ("a.t"); their structure is given by the constant     *)
 (* function Par (parent of a name, Nil for a TLD), so a universe of        *)
 (* well-formed names is fixed per configuration (name syntax is C18).      *)
-(* Time is counted in units; a year has YEAR units; the Go driver maps a   *)
-(* unit to a fixed number of milliseconds (a multiple of 1000, because the *)
-(* `expire` argument of register is in seconds) and adds a strictly        *)
-(* increasing sub-unit offset to every block, so `now >= expiration` in    *)
-(* milliseconds is exactly `now >= exp` in units.                          *)
+(* Time is counted in instants; a year has YEAR instants.  The variable    *)
+(* `now` is the instant at which the next transaction executes and at      *)
+(* which the read methods are observed (a test invocation runs at the top  *)
+(* block's timestamp + 1 ms): every invocation is one block at instant     *)
+(* `now` and moves `now` one instant on, Tick(d) moves it d instants on.   *)
+(* The Go driver maps instant T to T0 + (T div B) * unit + (T mod B) ms    *)
+(* (unit = year/4, a multiple of 1000 ms because `expire` is in seconds;   *)
+(* durations are multiples of B instants), which is strictly monotone, so  *)
+(* `now >= expiration` in ms is exactly the comparison of instants and     *)
+(* t = exp-1, exp, exp+1 are hit to the millisecond.                       *)
 (*                                                                         *)
 (* State = the raw storage of the contract:                                *)
 (*   roots          0x20<tld>                                              *)
@@ -113,13 +118,13 @@ Range(s) == {s[i] : i \in 1..Len(s)}
 (* Methods                                                                 *)
 (***************************************************************************)
 Fault(act, S, via, n, o, m, x, ty, d) ==
-  /\ UNCHANGED <<now, roots, ns, supply, bal, idx, rec, soa>>
+  /\ now' = now + 1 /\ UNCHANGED <<roots, ns, supply, bal, idx, rec, soa>>
   /\ ev' = Event(act, S, via, n, o, m, x, ty, d, "FAULT", "null", 0, NoNtf)
 
 Halt(act, S, via, n, o, m, x, ty, d, ret, retn, ntf) ==
   ev' = Event(act, S, via, n, o, m, x, ty, d, "HALT", ret, retn, ntf)
 
-\* time passes (an empty block d units later)
+\* time passes (an empty block at instant now + d - 1, d >= 1)
 Tick(d) ==
   /\ now' = now + d
   /\ UNCHANGED store
@@ -138,7 +143,7 @@ RegisterTLD(S, via, n, m, x) ==
   THEN /\ roots' = roots \cup {n}
        /\ ns' = [ns EXCEPT ![n] = [ex |-> TRUE, owner |-> Nil, admin |-> Nil, exp |-> now + x]]
        /\ soa' = [soa EXCEPT ![n] = [ex |-> TRUE, mail |-> m, serial |-> now, e |-> x]]
-       /\ UNCHANGED <<now, supply, bal, idx, rec>>
+       /\ now' = now + 1 /\ UNCHANGED <<supply, bal, idx, rec>>
        /\ Halt("registerTLD", S, via, n, Nil, m, x, Nil, Nil, "null", 0, NoNtf)
   ELSE Fault("registerTLD", S, via, n, Nil, m, x, Nil, Nil)
 
@@ -152,7 +157,7 @@ Register(S, via, n, o, m, x) ==
      /\ ~ConflictIn(rec, n)
      /\ o \in W
   THEN IF AliveIn(ns, now, n)
-       THEN /\ UNCHANGED <<now, roots, ns, supply, bal, idx, rec, soa>>
+       THEN /\ now' = now + 1 /\ UNCHANGED <<roots, ns, supply, bal, idx, rec, soa>>
             /\ Halt("register", S, via, n, o, m, x, Nil, Nil, "false", 0, NoNtf)
        ELSE LET old == IF ns[n].ex THEN ns[n].owner ELSE Nil
                 b1  == IF ns[n].ex THEN Dec(bal, old) ELSE bal
@@ -162,7 +167,7 @@ Register(S, via, n, o, m, x) ==
                 /\ soa' = [soa EXCEPT ![n] = [ex |-> TRUE, mail |-> m, serial |-> now, e |-> x]]
                 /\ bal' = Inc(b1, o)
                 /\ idx' = i1 \cup {<<o, n>>}
-                /\ UNCHANGED <<now, roots, rec>>
+                /\ now' = now + 1 /\ UNCHANGED <<roots, rec>>
                 /\ Halt("register", S, via, n, o, m, x, Nil, Nil, "true", 0,
                         <<Ntf("Transfer", n, old, o, 1, 0)>>)
   ELSE Fault("register", S, via, n, o, m, x, Nil, Nil)
@@ -173,14 +178,14 @@ Transfer(S, via, n, o) ==
   IF Level(n) > 1 /\ AliveIn(ns, now, n)
   THEN LET from == ns[n].owner IN
        IF from \notin W
-       THEN /\ UNCHANGED <<now, roots, ns, supply, bal, idx, rec, soa>>
+       THEN /\ now' = now + 1 /\ UNCHANGED <<roots, ns, supply, bal, idx, rec, soa>>
             /\ Halt("transfer", S, via, n, o, Nil, 0, Nil, Nil, "false", 0, NoNtf)
        ELSE /\ IF from # o
                THEN /\ ns' = [ns EXCEPT ![n].owner = o, ![n].admin = Nil]
                     /\ bal' = Inc(Dec(bal, from), o)
                     /\ idx' = (idx \ {<<from, n>>}) \cup {<<o, n>>}
                ELSE UNCHANGED <<ns, bal, idx>>
-            /\ UNCHANGED <<now, roots, supply, rec, soa>>
+            /\ now' = now + 1 /\ UNCHANGED <<roots, supply, rec, soa>>
             /\ Halt("transfer", S, via, n, o, Nil, 0, Nil, Nil, "true", 0,
                     <<Ntf("Transfer", n, from, o, 1, 0)>>)
   ELSE Fault("transfer", S, via, n, o, Nil, 0, Nil, Nil)
@@ -195,7 +200,7 @@ Renew(S, via, n, y) ==
      /\ AdminOK(ns[n], W)
      /\ Level(n) > 1 => ex <= now + 10 * YEAR
   THEN /\ ns' = [ns EXCEPT ![n].exp = ex]
-       /\ UNCHANGED <<now, roots, supply, bal, idx, rec, soa>>
+       /\ now' = now + 1 /\ UNCHANGED <<roots, supply, bal, idx, rec, soa>>
        /\ Halt("renew", S, via, n, Nil, Nil, y, Nil, Nil, "int", ex, <<Ntf("Renew", n, Nil, Nil, ns[n].exp, ex)>>)
   ELSE Fault("renew", S, via, n, Nil, Nil, y, Nil, Nil)
 
@@ -207,7 +212,7 @@ SetAdmin(S, via, n, o) ==
      /\ StateOK(n, n)
      /\ ns[n].owner \in W
   THEN /\ ns' = [ns EXCEPT ![n].admin = o]
-       /\ UNCHANGED <<now, roots, supply, bal, idx, rec, soa>>
+       /\ now' = now + 1 /\ UNCHANGED <<roots, supply, bal, idx, rec, soa>>
        /\ Halt("setAdmin", S, via, n, o, Nil, 0, Nil, Nil, "null", 0, <<Ntf("SetAdmin", n, ns[n].admin, o, 0, 0)>>)
   ELSE Fault("setAdmin", S, via, n, o, Nil, 0, Nil, Nil)
 
@@ -216,7 +221,7 @@ UpdateSOA(S, via, n, m, x) ==
   LET W == Wit(S, via) IN
   IF StateOK(n, n) /\ AdminOK(ns[n], W)
   THEN /\ soa' = [soa EXCEPT ![n] = [ex |-> TRUE, mail |-> m, serial |-> now, e |-> x]]
-       /\ UNCHANGED <<now, roots, ns, supply, bal, idx, rec>>
+       /\ now' = now + 1 /\ UNCHANGED <<roots, ns, supply, bal, idx, rec>>
        /\ Halt("updateSOA", S, via, n, Nil, m, x, Nil, Nil, "null", 0, NoNtf)
   ELSE Fault("updateSOA", S, via, n, Nil, m, x, Nil, Nil)
 
@@ -240,7 +245,7 @@ AddRecord(S, via, n, ty, d) ==
        IF d \notin Range(L) /\ Len(L) < MaxRec /\ (ty = "CNAME" => Len(L) = 0)
        THEN /\ rec' = [rec EXCEPT ![<<tok, n, ty>>] = Append(L, d)]
             /\ soa' = Touch(tok)
-            /\ UNCHANGED <<now, roots, ns, supply, bal, idx>>
+            /\ now' = now + 1 /\ UNCHANGED <<roots, ns, supply, bal, idx>>
             /\ Halt("addRecord", S, via, n, Nil, Nil, 0, ty, d, "null", 0, NoNtf)
        ELSE Fault("addRecord", S, via, n, Nil, Nil, 0, ty, d)
   ELSE Fault("addRecord", S, via, n, Nil, Nil, 0, ty, d)
@@ -256,7 +261,7 @@ SetRecordD(D, S, via, n, ty, id, d) ==
        IF id >= 0 /\ id < Len(L) /\ ("SetDuplicate" \in D \/ \A i \in 1..Len(L) : i # id + 1 => L[i] # d)
        THEN /\ rec' = [rec EXCEPT ![<<tok, n, ty>>] = [L EXCEPT ![id + 1] = d]]
             /\ soa' = Touch(tok)
-            /\ UNCHANGED <<now, roots, ns, supply, bal, idx>>
+            /\ now' = now + 1 /\ UNCHANGED <<roots, ns, supply, bal, idx>>
             /\ Halt("setRecord", S, via, n, Nil, Nil, id, ty, d, "null", 0, NoNtf)
        ELSE Fault("setRecord", S, via, n, Nil, Nil, id, ty, d)
   ELSE Fault("setRecord", S, via, n, Nil, Nil, id, ty, d)
@@ -274,12 +279,12 @@ DeleteRecords(S, via, n, ty) ==
      /\ AdminOK(ns[tok], W)
   THEN /\ rec' = IF ty \in OkTypes THEN [rec EXCEPT ![<<tok, n, ty>>] = <<>>] ELSE rec
        /\ soa' = Touch(tok)
-       /\ UNCHANGED <<now, roots, ns, supply, bal, idx>>
+       /\ now' = now + 1 /\ UNCHANGED <<roots, ns, supply, bal, idx>>
        /\ Halt("deleteRecords", S, via, n, Nil, Nil, 0, ty, Nil, "null", 0, NoNtf)
   ELSE Fault("deleteRecords", S, via, n, Nil, Nil, 0, ty, Nil)
 
 Init ==
-  /\ now = 0
+  /\ now = 1
   /\ roots = InitTLDs
   /\ ns = [n \in Names |-> IF n \in InitTLDs THEN [ex |-> TRUE, owner |-> Nil, admin |-> Nil, exp |-> 10 * YEAR] ELSE NoName]
   /\ soa = [n \in Names |-> IF n \in InitTLDs THEN [ex |-> TRUE, mail |-> "ops", serial |-> 0, e |-> 10 * YEAR] ELSE NoSoa]
